@@ -123,6 +123,63 @@ func execPrim(op string, a []string) string {
 			return "err"
 		}
 		return "ok"
+	case "prim.mac2":
+		// prim.mac2 <alg> <key> <data1> <data2>: one MACer, two messages; the second tag is answered (and must verify
+		// on the same object).  Specification: as prim.mac <alg> <key> <data2> on a fresh MACer.
+		alg, _ := strconv.Atoi(a[0])
+		m, err := macerFor(alg, unhx(a[1]))
+		if err != nil {
+			return "err"
+		}
+		t1, e1 := m.MACCreate(unhx(a[2]))
+		if e1 == nil {
+			m.MACVerify(unhx(a[2]), t1)
+			m.MACVerify(unhx(a[3]), t1)
+		}
+		t2, e2 := m.MACCreate(unhx(a[3]))
+		if e2 == nil && m.MACVerify(unhx(a[3]), t2) != nil {
+			return "OWN-TAG-REFUSED"
+		}
+		return okBytes(t2, e2)
+	case "prim.macrekey":
+		// prim.macrekey <alg> <key1> <key2> <data> (HMAC, equal key sizes): the key octets held in the key map are
+		// overwritten in place between two calls on one MACer; the library reads the key on every call, so the
+		// second tag is the one under key2 (mirror of the current behaviour: no stale keyed state)
+		alg, _ := strconv.Atoi(a[0])
+		k1, k2 := unhx(a[1]), unhx(a[2])
+		kk := symKey(alg, k1)
+		m, err := hmac.New(kk)
+		if err != nil {
+			return "err"
+		}
+		m.MACCreate(unhx(a[3]))
+		kb, _ := kk.GetBytes(iana.SymmetricKeyParameterK)
+		copy(kb, k2)
+		return okBytes(m.MACCreate(unhx(a[3])))
+	case "prim.aead2":
+		// prim.aead2 <alg> <key> <n1> <p1> <a1> <n2> <p2> <a2>: one Encryptor, an encryption and a failing decryption
+		// with the first triple, then the second encryption is answered.  Specification: as prim.aead.enc on a fresh one.
+		alg, _ := strconv.Atoi(a[0])
+		e, err := encryptorFor(alg, unhx(a[1]))
+		if err == errKeyFromDisagrees {
+			return "keyfrom-disagrees"
+		}
+		if err != nil {
+			return "err"
+		}
+		if c1, e1 := e.Encrypt(unhx(a[2]), unhx(a[3]), unhx(a[4])); e1 == nil {
+			e.Decrypt(unhx(a[2]), flipBit(rand.New(rand.NewSource(1)), c1), unhx(a[4]))
+			if p, e2 := e.Decrypt(unhx(a[2]), c1, unhx(a[4])); e2 != nil || string(p) != string(unhx(a[3])) {
+				return "OWN-CIPHERTEXT-REFUSED"
+			}
+		}
+		c2, e2 := e.Encrypt(unhx(a[5]), unhx(a[6]), unhx(a[7]))
+		if e2 == nil {
+			if p, e3 := e.Decrypt(unhx(a[5]), c2, unhx(a[7])); e3 != nil || string(p) != string(unhx(a[6])) {
+				return "OWN-CIPHERTEXT-REFUSED"
+			}
+		}
+		return okBytes(c2, e2)
 	case "prim.aead.enc":
 		alg, _ := strconv.Atoi(a[0])
 		e, err := encryptorFor(alg, unhx(a[1]))
@@ -148,17 +205,41 @@ func execPrim(op string, a []string) string {
 		return okBytes(hkdf.HKDF512(unhx(a[0]), unhx(a[1]), unhx(a[2]), n))
 	case "prim.hkdfaes":
 		n, _ := strconv.Atoi(a[2])
-		return okBytes(hkdf.HKDFAES(unhx(a[0]), unhx(a[1]), n))
+		raw := unhx(a[1])
+		info := make([]byte, len(raw), len(raw)+16)
+		copy(info, raw)
+		ans := okBytes(hkdf.HKDFAES(unhx(a[0]), info, n))
+		for _, b := range info[:cap(info)][len(info):] {
+			if b != 0 {
+				return ans + " CALLER-BUFFER-WRITTEN"
+			}
+		}
+		if string(info) != string(raw) {
+			return ans + " CALLER-INFO-CHANGED"
+		}
+		return ans
 	case "prim.hkdfaes.read":
 		block, err := aes.NewCipher(unhx(a[0]))
 		if err != nil {
 			return "err"
 		}
-		rd := hkdf.NewAES(block, unhx(a[1]))
+		// the caller's info slice has spare capacity and is shared with a second, unrelated reader that is read in
+		// between; the caller also writes behind the slice's end between reads: none of this may reach the stream
+		raw := unhx(a[1])
+		backing := make([]byte, len(raw), len(raw)+48)
+		copy(backing, raw)
+		rd := hkdf.NewAES(block, backing)
+		otherBlock, _ := aes.NewCipher(make([]byte, 32))
+		decoy := hkdf.NewAES(otherBlock, backing)
 		var outs []string
 		for _, s := range strings.Split(a[2], ",") {
 			n, _ := strconv.Atoi(s)
 			buf := make([]byte, n)
+			decoy.Read(make([]byte, 33))
+			tail := backing[:cap(backing)]
+			for j := len(backing); j < len(tail); j++ {
+				tail[j] = 0xEE
+			}
 			if got, err := rd.Read(buf); err != nil || got != n {
 				outs = append(outs, "err") // a failing read ends the sequence
 				break
@@ -201,7 +282,13 @@ func nonceSizeOf(alg int) int {
 
 // message lengths: every residue mod 16 / 64 / 128 around block boundaries, plus CBOR/CCM limits
 func msgLen(r *rand.Rand, big bool) int {
-	switch r.Intn(10) {
+	switch r.Intn(11) {
+	case 10: // buffer-size boundaries: 2^k (k = 5..14) plus the offsets at which block / header arithmetic changes
+		n := (1 << uint(5+r.Intn(10))) + []int{-16, -15, -14, -2, -1, 0, 0, 0, 1, 2, 10, 14, 14, 15, 16}[r.Intn(15)]
+		if n < 0 {
+			n = 0
+		}
+		return n
 	case 0:
 		return 0
 	case 1, 2, 3:
@@ -328,6 +415,12 @@ func genPrimMac(r *rand.Rand, n int) []string {
 			}
 		}
 		out = append(out, fmt.Sprintf("prim.macverify %d %s %s %s", alg, hx(k), hx(data), hx(t)))
+		if i%4 == 0 { // one MACer, two messages
+			out = append(out, fmt.Sprintf("prim.mac2 %d %s %s %s", alg, hx(k), hx(data), hx(randBytes(r, msgLen(r, false)))))
+			if isIn(alg, hmacAlgs) && len(k) == keySizeOf(alg) {
+				out = append(out, fmt.Sprintf("prim.macrekey %d %s %s %s", alg, hx(k), hx(randBytes(r, len(k))), hx(data)))
+			}
+		}
 	}
 	return out
 }
@@ -394,6 +487,14 @@ func genPrimAead(r *rand.Rand, n int) []string {
 			c2 = append(append([]byte{}, ct...), byte(r.Intn(256)))
 		}
 		out = append(out, fmt.Sprintf("prim.aead.dec %d %s %s %s %s", alg, hx(k2), hx(n2), hx(c2), hx(a2)))
+		if i%4 == 0 && len(pt) < 5000 && len(aad) < 5000 { // one Encryptor, two encryptions: with / without additional data in either order
+			p2, ad2 := randBytes(r, msgLen(r, false)), randBytes(r, []int{0, 0, 1, 14, 15, 40}[r.Intn(6)])
+			ad1 := aad
+			if r.Intn(2) == 0 {
+				ad1 = randBytes(r, 1+r.Intn(30))
+			}
+			out = append(out, fmt.Sprintf("prim.aead2 %d %s %s %s %s %s %s %s", alg, hx(k), hx(nonce), hx(pt), hx(ad1), hx(flipBit(r, nonce)), hx(p2), hx(ad2)))
+		}
 	}
 	return out
 }
